@@ -631,6 +631,9 @@ func pickCols(r *simrt.Rand) []int64 {
 func (g *l2Gen) row() int64 { return g.rows[g.r.Intn(len(g.rows))] }
 func (g *l2Gen) col() int64 { return g.cols[g.r.Intn(len(g.cols))] }
 func (g *l2Gen) val() int64 {
+	if g.depth == 0 {
+		return 0 // the only value a bit depth of zero can hold
+	}
 	max := int64(1)<<g.depth - 1
 	switch g.r.Intn(6) {
 	case 0:
@@ -764,7 +767,7 @@ func (g *l2Gen) storageOp() simrt.Op {
 }
 
 func newL2Gen(r *simrt.Rand, kind int) *l2Gen {
-	g := &l2Gen{r: r, kind: kind, depth: uint(simrt.Pick(r, 1, 3, 8, 20, 62))}
+	g := &l2Gen{r: r, kind: kind, depth: uint(simrt.Pick(r, 0, 1, 3, 8, 20, 62))}
 	rowPool := []int64{0, 1, 2, 3, 99, 100, 101, 250}
 	switch kind {
 	case l2Bool:
